@@ -532,6 +532,19 @@ Definition canon_data {A} (fields : list string) (o : @val A) : list (string * o
 Definition zdata {A} (v : @val A) : option (list Z) :=
   match v with VZ _ d => Some d | VN _ d => Some (map Z.of_nat d) | _ => None end.
 
+(* ---------- the constructor's arguments as interpreter values (used by the statements C14_source_constructor etc. of props/P_C14.v) ----------
+   a function space whose mesh has nNodes nodes, the node-set table `sets` (name -> node list) and the connectivity `conns`;
+   a list of essential BCs (node-set name, component); the same BC list as the hand model takes it (node lists instead of names);
+   a rectangular connectivity table (every row as long as the first: it is a 2-D array) *)
+Definition mk_fsp {A} (nNodes : nat) (sets : string -> list nat) (conns : list (list nat)) : @val A :=
+  VObj [("mesh", VObj [("num_nodes", VInt nNodes); ("nodeSets", VDict sets); ("conns", VConns conns)])].
+Definition ebc_val {A} (e : string * nat) : @val A := VObj [("nodeSet", VStr (fst e)); ("component", VInt (snd e))].
+Definition mk_ebcs {A} (ebl : list (string * nat)) : @val A := VTup (map ebc_val ebl).
+Definition ebcs_of (sets : string -> list nat) (ebl : list (string * nat)) : list (list nat * nat) :=
+  map (fun e => (sets (fst e), snd e)) ebl.
+Definition rect_conns (conns : list (list nat)) : Prop :=
+  Forall (fun row => List.length row = List.length (hd [] conns)) conns.
+
 (* ---------- correspondence: the extracted DofManager run on one case (same layout as the first ten outputs of run_case) ---------- *)
 Fixpoint set_name (k : nat) : string := match k with 0 => "" | S k' => String.append "x" (set_name k') end.
 Definition bvals {A} (v : option (@val A)) : list Z := match v with Some (VB _ d) => encb d | _ => [(-7)%Z] end.
